@@ -8,7 +8,8 @@ import struct
 from .common import Check, Err, clist, cz, eval_terms
 from . import dsl, exprs, ebpf_exec, isa_check, sim_kernel
 
-SCALAR = ["B", "H", "I", "Q", "b", "h", "i", "q", "x"]
+SCALAR = ["B", "H", "I", "Q", "b", "h", "i", "q", "x", "B", "H", "I", "Q", "b", "h", "i", "q", "x",
+          ">h", "<h", "!i", "<i", ">b", ">H", "<I", "!q", ">Q", "<q"]        # a third with an explicit byte order
 MULTI = ["2H", "3B", "HI", "2I", "BH", "2q"]
 FB = 100000
 
@@ -351,7 +352,7 @@ class C08(Check):
 
     def rule(self):
         return ("a base class (0-3 array-map variables) and a derived program class (1-4 more, half of the base names redefined with another scalar format), 0-2 "
-                "subprogram class pairs with 1-2 instances each; formats B H I Q b h i q x (3/4) and multi-element 2H 3B HI 2I BH 2q; values incl. decimals 0.29, "
+                "subprogram class pairs with 1-2 instances each; formats B H I Q b h i q x, a third of them with an explicit byte order (>h <i !q ...) (3/4) and multi-element 2H 3B HI 2I BH 2q; values incl. decimals 0.29, "
                 "0.57, -0.58 for x; 25% per-CPU maps (Python side: one blob per CPU); scalars pass Python -> program -> mirrors and program -> Python")
 
     def distribution(self, cases, observed):
